@@ -9,6 +9,7 @@
   may raise), any number of blocks and any mix of positional / keyword arguments.
 -/
 import Scico.Proofs.Block
+import Scico.Proofs.BlockRandom
 
 namespace Scico.Props.C13
 open Scico.Block
@@ -111,9 +112,9 @@ theorem C13_method_tuple (E : Env α δ) (m : α → Res α) (h : α → α) (x 
 /-- `x[k]` is list indexing: for `-n ≤ k < n` it is block `k` (counted from the end when negative),
     otherwise `IndexError` -/
 theorem C13_getitem (self : List α) (k : Int) :
-    (0 ≤ k → k < self.length → getItem self k = (self[k.toNat]?).elim (.error .index) .ok) ∧
-    (k < 0 → -(self.length : Int) ≤ k →
-        getItem self k = (self[(k + self.length).toNat]?).elim (.error .index) .ok) ∧
+    (∀ (_ : 0 ≤ k) (h1 : k < self.length), getItem self k = .ok (self[k.toNat]'(by omega))) ∧
+    (∀ (_ : k < 0) (h1 : -(self.length : Int) ≤ k),
+        getItem self k = .ok (self[(k + self.length).toNat]'(by omega))) ∧
     (k < -(self.length : Int) ∨ (self.length : Int) ≤ k → getItem self k = .error .index) := by
   refine ⟨?_, ?_, ?_⟩
   · intro h0 h1
@@ -121,13 +122,13 @@ theorem C13_getitem (self : List α) (k : Int) :
     have h3 : ¬ ((self.length : Int) ≤ k) := by omega
     unfold getItem
     simp only [h2, h3, if_false, or_self]
-    cases self[k.toNat]? <;> rfl
+    rw [List.getElem?_eq_getElem (by omega)]
   · intro h0 h1
     have h2 : ¬ (k + (self.length : Int) < 0) := by omega
     have h3 : ¬ ((self.length : Int) ≤ k + self.length) := by omega
     unfold getItem
     simp only [h0, if_true, h2, h3, or_self, if_false]
-    cases self[(k + (self.length : Int)).toNat]? <;> rfl
+    rw [List.getElem?_eq_getElem (by omega)]
   · intro h
     unfold getItem
     by_cases hk : k < 0
@@ -427,16 +428,63 @@ theorem C13_creation_size (items : List STree) (hnest : (STree.tup items).isNest
 /-! ### pytree registration and the dtype invariant -/
 
 /-- `unflatten ∘ flatten = id` on well-formed block arrays, `flatten ∘ unflatten = id` on
-    well-formed children -/
+    well-formed children (what `jit`, `grad`, `jvp`, `vjp`, `scan`, `cond`, `tree_map` with
+    array-valued functions use) -/
 theorem C13_pytree (E : Env α δ) (b : List α) (hwf : WF E b) :
     treeUnflatten E (treeFlatten b).2 (treeFlatten b).1 = .ok b ∧
     ((treeUnflatten E () b).map treeFlatten) = .ok (b, ()) := by
+  have hall : b.all E.isArr = true := List.all_eq_true.2 hwf.1
   constructor
-  · exact mkBlock_wf E hwf
-  · simp [treeUnflatten, mkBlock_wf E hwf, Except.map, treeFlatten]
+  · simp [treeUnflatten, treeFlatten, hall, mkBlock_wf E hwf]
+  · simp [treeUnflatten, hall, mkBlock_wf E hwf, Except.map, treeFlatten]
+
+/-- JAX's contract for a registered node: `unflatten` takes ANY leaves and `flatten` gives them back
+    (transformations such as `vmap`, `jacfwd`, `jacrev`, `hessian`, `eval_shape`, lowering rebuild
+    trees with placeholder leaves `object()`, `None`, `ShapeDtypeStruct`):
+    a list with a non-array leaf is stored untouched; whatever is accepted comes back unchanged from
+    `flatten`; the only lists rejected are arrays of different dtypes (the dtype invariant). -/
+theorem C13_pytree_placeholders (E : Env α δ) (children : List α) :
+    (children.all E.isArr = false → treeUnflatten E () children = .ok children) ∧
+    (∀ b, treeUnflatten E () children = .ok b → (treeFlatten b).1 = children) ∧
+    (∀ e, treeUnflatten E () children = .error e →
+        e = .dtype ∧ (∀ a ∈ children, E.isArr a = true) ∧ ¬ Homog E children) := by
+  refine ⟨fun h => by simp [treeUnflatten, h], fun b hb => ?_, fun e he => ?_⟩
+  · unfold treeUnflatten at hb
+    by_cases hall : children.all E.isArr = true
+    · simp only [hall, if_true] at hb
+      obtain ⟨hlen, _, hget⟩ := mkFrom_ok E hb
+      apply List.ext_getElem hlen
+      intro i h1 h2
+      obtain ⟨z, hz, hc⟩ := hget i h2 h1
+      simp only [Except.ok.injEq] at hz
+      subst hz
+      have : E.isArr children[i] = true := List.all_eq_true.1 hall _ (List.getElem_mem h2)
+      rw [coerce_arr E this] at hc
+      simpa [treeFlatten] using (Except.ok.inj hc).symm
+    · simp only [hall] at hb
+      simpa [treeFlatten] using (Except.ok.inj hb).symm
+  · unfold treeUnflatten at he
+    by_cases hall : children.all E.isArr = true
+    · simp only [hall, if_true] at he
+      have harr : ∀ a ∈ children, E.isArr a = true := List.all_eq_true.1 hall
+      by_cases hh : Homog E children
+      · rw [mkBlock_wf E ⟨harr, hh⟩] at he; cases he
+      · have := mkFrom_hetero E (g := Except.ok) (h := id) (xs := children) (fun _ _ => rfl) harr (by simpa using hh)
+        simp only [mkBlock] at he
+        rw [this] at he
+        exact ⟨(Except.error.inj he).symm, harr, hh⟩
+    · simp [hall] at he
+
+/-- before d088c11 every leaf went through the constructor: a leaf that `jnp.array` rejects made
+    `unflatten` raise (finding `blockarray-pytree-placeholder-leaves`, repaired) -/
+theorem C13_pytree_old_witness :
+    ∃ (E : Env Nat Unit) (children : List Nat),
+      treeUnflattenOld E () children = .error .type ∧ treeUnflatten E () children = .ok children :=
+  ⟨⟨fun x => x == 0, fun _ => .error .type, fun _ => ()⟩, [1], by decide, by decide⟩
 
 /-- one homogeneous dtype is an invariant: every block array produced by the constructor, the
-    operator overloads, lifted methods, the function wrappers and `unflatten` is well formed -/
+    operator overloads, lifted methods, the function wrappers, `unflatten` from array leaves and the
+    assignment of a block is well formed -/
 theorem C13_dtype_inv (E : Env α δ) (hAs : ∀ x y, E.asArr x = .ok y → E.isArr y = true) :
     (∀ l r, mkBlock E l = .ok r → WF E r) ∧
     (∀ op self r, unop E op self = .ok r → WF E r) ∧
@@ -444,9 +492,18 @@ theorem C13_dtype_inv (E : Env α δ) (hAs : ∀ x y, E.asArr x = .ok y → E.is
     (∀ m self r, liftMethod E m self = .ok (.blk r) → WF E r) ∧
     (∀ f args kwargs r, 0 < numBlocksInArgs args kwargs →
         mapFuncOverBlocks E f args kwargs = .ok (.blk r) → WF E r) ∧
-    (∀ aux l r, treeUnflatten E aux l = .ok r → WF E r) := by
+    (∀ aux l r, (∀ a ∈ l, E.isArr a = true) → treeUnflatten E aux l = .ok r → WF E r) ∧
+    (∀ self k v r, setItem E self k v = .ok r → WF E r) := by
   refine ⟨fun l r h => mkFrom_wf E hAs h, fun op self r h => mkFrom_wf E hAs h, ?_, ?_, ?_,
-    fun _ l r h => mkFrom_wf E hAs h⟩
+    fun _ l r harr h => ?_, fun self k v r h => ?_⟩
+  rotate_left 3
+  · have hall : l.all E.isArr = true := List.all_eq_true.2 harr
+    simp only [treeUnflatten, hall, if_true] at h
+    exact mkFrom_wf E hAs h
+  · unfold setItem at h
+    cases hp : pyIndex self.length k with
+    | none => simp [hp] at h
+    | some j => simp only [hp] at h; exact mkFrom_wf E hAs h
   · intro op self o r h
     unfold binop at h
     cases o with
@@ -514,6 +571,129 @@ theorem C13_dtype_reject (E : Env α δ) (l : List α) (harr : ∀ a ∈ l, E.is
   have := mkFrom_hetero E (g := Except.ok) (h := id) (xs := l) (fun _ _ => rfl) harr (by simpa using hdt)
   simpa [mkBlock] using this
 
+/-! ### assignment of blocks (round 2) -/
+
+/-- `x[k] = v` with `v` an array of the block array's dtype replaces block `k` (negative `k` from the
+    end), an index outside `[-n, n)` is an `IndexError` … -/
+theorem C13_setitem (E : Env α δ) (self : List α) (k : Int) (v : α)
+    (hwf : WF E self) (hv : E.isArr v = true) (hdt : ∀ a ∈ self, E.dt a = E.dt v) :
+    (∀ (_ : 0 ≤ k) (_ : k < self.length), setItem E self k v = .ok (self.set k.toNat v)) ∧
+    (∀ (_ : k < 0) (_ : -(self.length : Int) ≤ k),
+        setItem E self k v = .ok (self.set (k + self.length).toNat v)) ∧
+    (k < -(self.length : Int) ∨ (self.length : Int) ≤ k → setItem E self k v = .error .index) := by
+  have hwf' : ∀ j, WF E (self.set j v) := by
+    intro j
+    have key : ∀ c ∈ self.set j v, E.isArr c = true ∧ E.dt c = E.dt v := by
+      intro c hc
+      rcases List.mem_or_eq_of_mem_set hc with h1 | h1
+      · exact ⟨hwf.1 c h1, hdt c h1⟩
+      · rw [h1]; exact ⟨hv, rfl⟩
+    exact ⟨fun a ha => (key a ha).1, fun a ha b hb => by rw [(key a ha).2, (key b hb).2]⟩
+  refine ⟨?_, ?_, ?_⟩
+  · intro h0 h1
+    have h2 : ¬ (k < 0) := by omega
+    have h3 : ¬ ((self.length : Int) ≤ k) := by omega
+    simp [setItem, pyIndex, h2, h3, mkBlock_wf E (hwf' _)]
+  · intro h0 h1
+    have h2 : ¬ (k + (self.length : Int) < 0) := by omega
+    have h3 : ¬ ((self.length : Int) ≤ k + self.length) := by omega
+    simp [setItem, pyIndex, h0, h2, h3, mkBlock_wf E (hwf' _)]
+  · intro h
+    by_cases hk : k < 0
+    · have h2 : k + (self.length : Int) < 0 := by omega
+      simp [setItem, pyIndex, hk, h2]
+    · have h2 : (self.length : Int) ≤ k := by omega
+      simp [setItem, pyIndex, hk, h2]
+
+/-- … and an array of another dtype is rejected: the block array keeps one dtype
+    (the general invariant for every value is the last clause of `C13_dtype_inv`) -/
+theorem C13_setitem_reject (E : Env α δ) (self : List α) (k : Int) (v : α) (j : Nat)
+    (hwf : WF E self) (hv : E.isArr v = true) (hj : pyIndex self.length k = some j)
+    (hother : ∃ a ∈ self.set j v, E.dt a ≠ E.dt v) :
+    setItem E self k v = .error .dtype := by
+  have hjlt : j < self.length := pyIndex_lt hj
+  have harr : ∀ a ∈ self.set j v, E.isArr a = true := by
+    intro a ha
+    rcases List.mem_or_eq_of_mem_set ha with h1 | h1
+    · exact hwf.1 a h1
+    · rw [h1]; exact hv
+  have hnh : ¬ Homog E (self.set j v) := by
+    intro hh
+    obtain ⟨a, ha, hne⟩ := hother
+    exact hne (hh a ha v (mem_set_self hjlt v))
+  simp only [setItem, hj]
+  exact C13_dtype_reject E _ harr hnh
+
+/-- before d088c11 the value was stored as it is and the invariant could be broken
+    (finding `blockarray-setitem-unchecked`, repaired): blocks = numbers, dtype = parity -/
+theorem C13_setitem_old_witness :
+    ∃ (E : Env Nat Nat) (self : List Nat) (r : List Nat), WF E self ∧
+      setItemOld self 0 1 = .ok r ∧ ¬ WF E r ∧ setItem E self 0 1 = .error .dtype := by
+  refine ⟨⟨fun _ => true, Except.ok, fun x => x % 2⟩, [0, 2], [1, 2], ⟨fun _ _ => rfl, ?_⟩, by decide, ?_, by decide⟩
+  · intro a ha b hb
+    simp at ha hb
+    rcases ha with rfl | rfl <;> rcases hb with rfl | rfl <;> rfl
+  · intro h
+    have := h.2 1 (by simp) 2 (by simp)
+    revert this
+    decide
+
+/-! ### `scico.random` (round 2) -/
+
+section randprops
+variable {κ σ : Type}
+
+/-- nested shape: block `i` is `jax.random.<name>` called with the SAME key and `shape = items[i]`;
+    the returned key is `split(key)[0]` -/
+theorem C13_random_nested (E : Env α δ) (P : RngPrims κ σ β) (params : List String)
+    (g : List (String × RVal κ σ β) → Res α)
+    (args : List (RVal κ σ β)) (kwKey kwSeed : RVal κ σ β) (kwargs : List (String × RVal κ σ β))
+    (k : RVal κ σ β) (k' : κ) (bound : List (String × RVal κ σ β)) (items : List STree)
+    (hk : EffKey P (keyOf params.length args kwKey) (seedOf params.length args kwSeed) k)
+    (hb : bindArgs params (k :: args.take (params.length - 1)) kwargs = .ok bound)
+    (hshape : lookupKey "shape" bound = some (.tree (.tup items)))
+    (hnest : (STree.tup items).isNested = true)
+    (r : STree → α)
+    (hf : ∀ x ∈ items, g (eraseKey "shape" bound ++ [("shape", CVal.tree x)]) = .ok (r x))
+    (harr : ∀ x ∈ items, E.isArr (r x) = true) (hdt : Homog E (items.map r))
+    (hs : P.split0 k = .ok k') :
+    randomWrapped E P params g args kwKey kwSeed kwargs = .ok (.blk (items.map r), k') := by
+  unfold randomWrapped
+  apply addSeed_of P _ _ args kwKey kwSeed kwargs k _ k' hk _ hs
+  simp only [hb]
+  unfold mapTupleOfTuples
+  simp only [hshape, hnest, Bool.not_true, Bool.false_eq_true, if_false]
+  rw [mkFrom_of_arrays E hf harr hdt]
+  rfl
+
+/-- whatever is drawn, the returned key is `split(k)[0]` of the effective key `k` — it does not
+    depend on shape, dtype or the other arguments — and the draw used `k` -/
+theorem C13_random_key_thread (E : Env α δ) (P : RngPrims κ σ β) (params : List String)
+    (g : List (String × RVal κ σ β) → Res α)
+    (args : List (RVal κ σ β)) (kwKey kwSeed : RVal κ σ β) (kwargs : List (String × RVal κ σ β))
+    (v : PyVal α) (k' : κ)
+    (h : randomWrapped E P params g args kwKey kwSeed kwargs = .ok (v, k')) :
+    ∃ k bound, EffKey P (keyOf params.length args kwKey) (seedOf params.length args kwSeed) k ∧
+      P.split0 k = .ok k' ∧
+      bindArgs params (k :: args.take (params.length - 1)) kwargs = .ok bound ∧
+      mapTupleOfTuples E g "shape" bound = .ok v := by
+  obtain ⟨k, hk, hf, hs⟩ := addSeed_ok P _ _ args kwKey kwSeed kwargs v k' h
+  cases hb : bindArgs params (k :: args.take (params.length - 1)) kwargs with
+  | error e => simp [hb] at hf
+  | ok bound => exact ⟨k, bound, hk, hs, hb, by simpa [hb] using hf⟩
+
+/-- a key and a seed together are rejected, whatever else is passed -/
+theorem C13_random_exclusive (E : Env α δ) (P : RngPrims κ σ β) (params : List String)
+    (g : List (String × RVal κ σ β) → Res α)
+    (args : List (RVal κ σ β)) (kwKey kwSeed : RVal κ σ β) (kwargs : List (String × RVal κ σ β))
+    (h1 : (keyOf params.length args kwKey).isNone = false)
+    (h2 : (seedOf params.length args kwSeed).isNone = false) :
+    randomWrapped E P params g args kwKey kwSeed kwargs = .error .value :=
+  addSeed_both P _ _ args kwKey kwSeed kwargs h1 h2
+
+end randprops
+
+
 /-! ### non-vacuity: concrete instances (blocks = lists of integers, dtype = unit) -/
 
 section examples
@@ -552,6 +732,34 @@ example : mapTupleOfTuples (β := Unit) exEnv
     = .ok (.blk [List.replicate 6 0, List.replicate 4 0]) := by decide
 example : shapeToSize (.tup [.tup [.int 2, .int 3], .tup [.int 4]]) = 10 := by decide
 example : WF exEnv [[1, 2], [3]] := ⟨fun _ _ => rfl, fun _ _ _ _ => rfl⟩
+-- assignment: `x[-1] = v` replaces the last block; index errors as for `x[k]`
+example : setItem exEnv [[1, 2], [3]] (-1) [9] = .ok [[1, 2], [9]] := by decide
+example : setItem exEnv [[1, 2], [3]] 2 [9] = (.error .index : Res (List (List Int))) := by decide
+-- placeholder leaves are stored untouched: dtype = parity, arrays = even numbers; [1, 4] has a non-array leaf
+example : treeUnflatten (⟨fun x => x % 2 == 0, fun _ => .error .type, fun x => x⟩ : Env Nat Nat) () [1, 4] = .ok [1, 4] := by decide
+-- scico.random: universe = Nat, keys = seeds = Nat, `PRNGKey s = 100 + s`, `split(k)[0] = 2 k`,
+-- a draw with key `k` and shape tree `t` gives `k + t.prod`
+def exPrims : RngPrims Nat Nat Unit :=
+  ⟨0, fun v => match v with | .oth (.seed s) => .ok (100 + s) | _ => .error .type,
+      fun v => match v with | .oth (.key k) => .ok (2 * k) | _ => .error .type⟩
+def exEnvN : Env Nat Unit := ⟨fun _ => true, Except.ok, fun _ => ()⟩
+def exDraw (b : List (String × RVal Nat Nat Unit)) : Res Nat :=
+  match lookupKey "key" b, lookupKey "shape" b with
+  | some (.oth (.key k)), some (.tree t) => .ok (k + t.prod)
+  | _, _ => .error .type
+-- nested shape ((2,),(2,)) with key 7 given by keyword: both blocks drawn with key 7 (equal blocks), new key 14
+example : randomWrapped exEnvN exPrims ["key", "shape", "dtype"] exDraw
+    [.tree (.tup [.tup [.int 2], .tup [.int 2]])] (.oth (.key 7)) (.oth .none) []
+    = .ok (.blk [9, 9], 14) := by decide
+-- no key, no seed: `PRNGKey(0)`; seed 5 positional (4th argument): `PRNGKey(5)`
+example : randomWrapped exEnvN exPrims ["key", "shape", "dtype"] exDraw
+    [.tree (.tup [.int 3])] (.oth .none) (.oth .none) [] = .ok (.one 103, 200) := by decide
+example : randomWrapped exEnvN exPrims ["key", "shape", "dtype"] exDraw
+    [.tree (.tup [.int 3]), .oth (.oth ()), .oth .none, .oth (.seed 5)] (.oth .none) (.oth .none) []
+    = .ok (.one 108, 210) := by decide
+-- key and seed together
+example : randomWrapped exEnvN exPrims ["key", "shape", "dtype"] exDraw
+    [.tree (.tup [.int 3])] (.oth (.key 7)) (.oth (.seed 1)) [] = .error .value := by decide
 
 end examples
 
